@@ -256,6 +256,10 @@ pub struct PtSpec {
     /// replace what the client was configured with.
     #[serde(default)]
     pub status_currency: Option<u16>,
+    /// A slow but healthy terminal: every packet other than an acknowledgement leaves this many
+    /// milliseconds after the previous one (below the per-packet time-out; their sum may exceed it).
+    #[serde(default)]
+    pub pace_ms: u32,
 }
 
 // ---------------------------------------------------------------- state
@@ -520,6 +524,9 @@ impl PtConn {
             }
         }
         let mut delay = e.delay_ms;
+        if !at_ack {
+            delay += pt.spec.pace_ms as u64;
+        }
         let dp = pt.delay_pct;
         if dp > 0 && pt.drng.pct(dp) {
             let max = pt.max_delay_ms;
